@@ -70,7 +70,7 @@ CHECKS = {
  'C06': dict(
     technique="exhaustive enumeration of the finite conversion table (substance kinds x unit pairs x prefixes x configurations) against an exact-rational reference",
     text="All 41 x 41 prefixed unit pairs x 11 substances x 6 amounts of Unit.convert_from (factor, zero/reject cells, linearity, round trip), "
-         "composition over 6 x 41 x 6 unit triples, the string front end and the storage conversions, under 3/9 default-density configurations in separate processes.",
+         "composition over 6 x 41 x 6 unit triples, the string front end, the storage conversions and the standard-format conversion, under 3/9 default-density configurations in separate processes.",
     note="Amounts and substance parameters come from fixed tables (linearity extends the factor check to all amounts up to float error). " + TRUST,
     ref="DESIGN.md section 4 C06"),
  'C13': dict(
@@ -100,14 +100,14 @@ CHECKS = {
     ref="DESIGN.md section 4 C02"),
  'C03': dict(
     technique="explicit-state exploration with a state-sanity invariant, plus exhaustive boundary enumeration (below/at/above every feasibility constraint) classified by the reference model",
-    text="Sanity (no negative amount/volume, volume <= capacity) of every object returned, and feasibility (a transfer / remove / fill_to that clearly fits the reached state must not raise; nothing but ValueError/TypeError/RuntimeError is ever raised) along every history of the full operation menu incl. infeasible requests (depth 2/3) and of C01's 48-action history alphabet (depth 3/4); "
+    text="Sanity (no negative amount/volume, volume <= capacity) of every object returned, and feasibility (a transfer / remove / fill_to that clearly fits the reached state must not raise, one that clearly over-draws / over-fills / undershoots must not return; nothing but ValueError/TypeError/RuntimeError is ever raised; no non-finite amount) along every history of the full operation menu incl. infeasible requests (depth 2/3) and of C01's 48-action history alphabet (depth 3/4); "
          "~3 500 boundary cases (all exact-capacity fills 1..200 mL / 0.1..5.0 mL in three spellings, over-draw/negative/zero/empty in L, g, mol, U, destination capacity, fill_to, dilute, create_solution(_from), drained vessels), directly and as recipe steps; the same sanity judgement on every object handed out by the bake of every recipe program of <= 2/3 steps, and a recipe refused for infeasibility stays refused on re-bake."+CFG,
     note="'at the boundary' is must-accept only for decimal-exact boundaries; margins 0.1 %-5 %. " + TRUST,
     ref="DESIGN.md section 4 C03"),
  'C04': dict(
     technique="explicit-state exploration with structural fingerprints of every argument and every earlier result before/after each call (returned or raised)",
     text="Along every history of the full menu incl. failing calls, every argument and every object produced earlier is re-fingerprinted after each call; "
-         "all (18 slice geometries x 7 x 7 operation pairs) with one slice object held across both calls; every action as recipe (declare, add, bake, re-use results); every list handed to a call (solutes, concentrations, quantities, initial contents) compared with its value before; held slices also as source / destination of plate-to-plate transfers."+CFG,
+         "all (18 slice geometries x 7 x 7 operation pairs) with one slice object held across both calls; every action as recipe (declare, add, bake, re-use results); every list handed to a call (solutes, concentrations, quantities, initial contents) compared with its value before; held slices also as source / destination of plate-to-plate transfers; every Substance (attributes and hash) fingerprinted around every call."+CFG,
     note="Fingerprints cover name, exact contents, volume, capacity, instructions, every well, labels, slice bindings, substance attributes. " + TRUST,
     ref="DESIGN.md section 4 C04"),
  'C10': dict(
